@@ -113,6 +113,19 @@ def gen_real_graph(rnd, extreme=True, inexpressible=None):
         edges.append(EdgeLandmark([poses[0].id, lms[0].id], rnd_info(2, rnd, False), rnd_pose('R2', rnd, False), off, offset_id=0))
     g = Graph(edges, verts)
     g._g2o_params = params
+    if inexpressible == 'no_offset_id':
+        # an SE(3) landmark edge created without an offset id (the argument is optional) and with an offset of its own, in a graph whose
+        # registry does have entries (also under id 0): the file has no way to say which parameter the edge means
+        if not dim3 or not poses or not lms:
+            return gen_real_graph(rnd, extreme, inexpressible)
+        key0 = ('PARAMS_SE3OFFSET', 0)
+        if key0 not in params:
+            params[key0] = G2OParameterSE3Offset(key0, rnd_pose('SE3', rnd, False))
+            g._g2o_params = params
+        extra = EdgeLandmark([poses[0].id, lms[0].id], rnd_info(3, rnd, False), rnd_pose('R3', rnd, False), rnd_pose('SE3', rnd, False))
+        g = Graph(list(g._edges) + [extra], list(g._vertices))
+        g._g2o_params = params
+        return g
     if inexpressible == 'no_registry':
         # a graph assembled directly from objects: SE(3) landmark edges carry offsets, but no offset parameter was ever registered
         if not dim3 or not any(type(e) is EdgeLandmark for e in edges):
